@@ -1,6 +1,6 @@
 (* The third mechanism the property is anchored in - "initial factors passed through the proximal operator" - stated exactly:
    with a COMPUTED initialisation (svd / random) the factor returned for a mode that no sweep updates (a fixed mode other than the
-   last one, or any mode when the outer budget is 0) is proximal_operator of that mode applied to the RAW initial factor of that
+   last one, or any mode when the outer budget or the inner budget is 0) is proximal_operator of that mode applied to the RAW initial factor of that
    mode - not just "some output of the operator" (cp_skeleton). *)
 From Coq Require Import List Arith Bool Lia ZArith.
 From TLV Require Import Base.PyList Base.Tensor.
@@ -26,7 +26,7 @@ Section Init.
 
   Theorem cp_computed_not_updated (E : env (M := M)) n raw fixed n_outer n_inner zero fs m :
     constrained_cp dM op val msub madd E n (IComputed raw) fixed n_outer n_inner zero = Ok fs ->
-    m < length raw -> ~ In m (modes_list n fixed) \/ n_outer = 0 ->
+    m < length raw -> ~ In m (modes_list n fixed) \/ n_outer = 0 \/ n_inner = 0 ->
     proximal_operator op val m (nth m raw dM) = Ok (nth m fs dM).
   Proof.
     unfold constrained_cp. intros H Hm Hnu.
@@ -36,9 +36,10 @@ Section Init.
     destruct (outer_loop dM op val msub madd E n n_inner n_outer 0 (modes_list n fixed)
                          (fs0, map (fun _ => zero) fs0)) as [st|] eqn:O; simpl in H; [|discriminate H].
     inversion H; subst. apply prox_all_exact in I. destruct I as (L0 & X0). specialize (X0 m Hm). simpl in X0.
-    destruct Hnu as [Hn | Hz].
+    destruct Hnu as [Hn | [Hz | Hz]].
     - apply (outer_loop_inv dM op msub madd val E) in O. simpl in O. destruct O as (_ & K & _). rewrite (K m Hn). exact X0.
     - subst n_outer. simpl in O. inversion O; subst. simpl. exact X0.
+    - apply (outer_loop_inv dM op msub madd val E) in O. simpl in O. destruct O as (_ & _ & _ & _ & Z). rewrite (Z Hz m). exact X0.
   Qed.
 End Init.
 
@@ -46,7 +47,7 @@ End Init.
 Theorem zcp_computed_not_updated {P M : Type} (truthy : P -> bool) (dM : M) (op : kind -> P -> M -> M) (msub madd : M -> M -> M)
   (n : nat) (sp : list (kind * @zspec P)) (E : env (M := M)) raw fixed n_outer n_inner zero fs m :
   constrained_cp dM op (zvalidate truthy n sp) msub madd E n (IComputed raw) fixed n_outer n_inner zero = Ok fs ->
-  m < length raw -> ~ In m (modes_list n fixed) \/ n_outer = 0 ->
+  m < length raw -> ~ In m (modes_list n fixed) \/ n_outer = 0 \/ n_inner = 0 ->
   exists c, zvalidate truthy n sp m = Ok c /\ nth m fs dM = prox_of op c (nth m raw dM).
 Proof.
   intros H Hm Hnu. pose proof (cp_computed_not_updated dM op msub madd _ E n raw fixed n_outer n_inner zero fs m H Hm Hnu) as X.
